@@ -97,7 +97,7 @@ func expectedPackages(gc *GrammarCase, flags []string) []string {
 	if !hasFlag(flags, "-no_lexer") {
 		pk = append(pk, "lexer")
 	}
-	if gc.IR != nil && gc.HasSyntax {
+	if (gc.IR != nil || gc.SyntaxKnown) && gc.HasSyntax {
 		pk = append(pk, "parser", "errors")
 	}
 	return pk
@@ -256,14 +256,18 @@ func (st *c09State) prepare(w *engine.Worker, cs *c09Case) error {
 	switch cs.env.Pre {
 	case "":
 		return nil
-	case "other":
+	case "other", "other-big":
 		// a complete earlier output of another grammar in the same place
+		// (other-big: of a grammar with over a thousand LR(1) states)
 		var other *GrammarCase
 		for _, gc := range st.cases {
-			if gc.IR != nil && gc.ID != cs.gc.ID && gc.HasSyntax && len(gc.NeedFlags) == 0 {
+			if gc.IR != nil && gc.ID != cs.gc.ID && gc.HasSyntax && len(gc.NeedFlags) == 0 && (cs.env.Pre == "other" || gc.IR.Big) {
 				other = gc
 				break
 			}
+		}
+		if other == nil {
+			return nil
 		}
 		s := c09Spec(other, nil, cs.env)
 		p := simrt.Plan{Map: simrt.MapPlan{Policy: "identity"}, TickBudget: c09TickBudget}
@@ -276,6 +280,27 @@ func (st *c09State) prepare(w *engine.Worker, cs *c09Case) error {
 		s := cs.spec
 		n := len(cs.ref.Ops)
 		p := simrt.Plan{Map: simrt.MapPlan{Policy: "identity"}, TickBudget: c09TickBudget, Faults: []simrt.Fault{{Op: n/2 + 1, Kind: "torn", Keep: -2}}}
+		s.Plan = &p
+		s.Pre = "keep"
+		_, err := w.Exec(st.g.Sim, &s, st.timeout)
+		return err
+	case "otherflags":
+		// a complete earlier output of the SAME grammar generated with -zip toggled
+		// (compressed and plain tables are different sets of bytes in the same files)
+		fl := append([]string{}, cs.flags...)
+		if hasFlag(fl, "-zip") {
+			var nf []string
+			for _, f := range fl {
+				if f != "-zip" {
+					nf = append(nf, f)
+				}
+			}
+			fl = nf
+		} else {
+			fl = append(fl, "-zip")
+		}
+		s := c09Spec(cs.gc, fl, cs.env)
+		p := simrt.Plan{Map: simrt.MapPlan{Policy: "identity"}, TickBudget: c09TickBudget}
 		s.Plan = &p
 		s.Pre = "keep"
 		_, err := w.Exec(st.g.Sim, &s, st.timeout)
@@ -462,7 +487,7 @@ func RunC09(c *Ctx) error {
 		// -o naming the working directory itself
 		{Out: "."}, {Cwd: "a/b", Out: "ABS:"},
 		{GDir: "src/grammar"}, {Cwd: "a/b", GDir: ".."}, {GDir: "ABS:src", Out: "out"}, {Cwd: "a/b", GDir: "../../top", Pkg: true}}
-	pres := []string{"", "other", "debris", "file", "corrupt", "debris-other", "outfile", "gomod-dir"}
+	pres := []string{"", "other", "debris", "file", "corrupt", "debris-other", "outfile", "gomod-dir", "otherflags", "other-big"}
 	quickFlags := [][]string{{}, {"-zip"}, {"-v", "-a"}, {"-no_lexer"}, {"-debug_lexer", "-debug_parser"}, {"-zip", "-no_lexer", "-v"}}
 	var cfgs []*c09Case
 	seen := map[string]bool{}
@@ -787,9 +812,10 @@ func RunC09(c *Ctx) error {
 	// must still mean the basic packages are there.  Damage is placed right after
 	// lexically interesting characters, not uniformly. ----
 	type mjob struct {
-		cs   *c09Case
-		what string
-		res  *engine.Result
+		cs        *c09Case
+		what      string
+		res       *engine.Result
+		sameAsRef bool // exit 0 must come with exactly the undamaged grammar's output
 	}
 	var mjobs []*mjob
 	nMut := 10
@@ -815,7 +841,25 @@ func RunC09(c *Ctx) error {
 		}
 		rr := prng.Sub(c.Seed, "c09mut/"+cs.key(), ci)
 		if ci%4 == 0 {
-			for _, odd := range []struct{ text, what string }{{"", "empty"}, {"/* nothing but a comment */\n// and another\n", "only comments"}, {"\n\n \t\n", "only white space"}} {
+			for _, odd := range []struct{ text, what string }{{"", "empty"}, {"/* nothing but a comment */\n// and another\n", "only comments"}, {"\n\n \t\n", "only white space"},
+				{strings.ReplaceAll(text, "\n", "\r\n"), "with CR LF line ends"}, {text[:len(text)/2] + "\xff\xfe" + text[len(text)/2:], "with invalid UTF-8 in the middle"},
+				{text[:len(text)/3] + "\x00" + text[len(text)/3:], "with a NUL byte"}, {"\ufeff" + text, "with a leading byte order mark"}, {text + "\x1a", "with a trailing ^Z"}} {
+				cs2 := *cs
+				cs2.spec.GrammarText = odd.text
+				mjobs = append(mjobs, &mjob{cs: &cs2, what: odd.what})
+			}
+			// a byte that can belong to no token, BETWEEN two productions: if gocc accepts the
+			// file it must have ignored that byte, i.e. generated exactly what it generates
+			// for the undamaged file (anything else was generated from a part of the file)
+			if at := strings.Index(text[len(text)/2:], ";\n\n"); at >= 0 && cs.gc.IR != nil && !strings.HasPrefix(cs.gc.ID, "awk-") {
+				at += len(text)/2 + 2
+				for _, junk := range []struct{ b, what string }{{"\x00", "NUL"}, {"\xff", "byte 0xFF"}, {"\x1a", "^Z"}} {
+					cs2 := *cs
+					cs2.spec.GrammarText = text[:at] + junk.b + text[at:]
+					mjobs = append(mjobs, &mjob{cs: &cs2, what: "with " + junk.what + " between two productions", sameAsRef: true})
+				}
+			}
+			for _, odd := range []struct{ text, what string }{} {
 				cs2 := *cs
 				cs2.spec.GrammarText = odd.text
 				mjobs = append(mjobs, &mjob{cs: &cs2, what: odd.what})
@@ -867,6 +911,10 @@ func RunC09(c *Ctx) error {
 			}
 			if d := c09Complete(res.Files, mj.cs.spec.OutDir(), pk); d != "" {
 				c.Report(&Violation{Class: "exit0-incomplete", Key: key, Detail: fmt.Sprintf("%s %v with the grammar file %s: exit status 0 but %s", mj.cs.gc.ID, mj.cs.flags, mj.what, d), Plan: plan})
+			} else if mj.sameAsRef && mj.cs.ref != nil && mj.cs.ref.Exit == 0 {
+				if d := c09SameAsRef(mj.cs.ref.Files, res.Files); d != "" {
+					c.Report(&Violation{Class: "exit0-partial-input", Key: key, Detail: fmt.Sprintf("%s %v with the grammar file %s: exit status 0, yet the output is not what the undamaged file gives (the file was accepted but not generated from as a whole): %s", mj.cs.gc.ID, mj.cs.flags, mj.what, d), Plan: plan})
+				}
 			}
 		}
 		return nil
@@ -930,6 +978,22 @@ func c09Judge(c *Ctx, st *c09State, cs *c09Case, plan c09Plan, res *engine.Resul
 	if ref != nil && outputFault && ref.Exit == 0 {
 		if d := c09SameAsRef(ref.Files, res.Files); d != "" {
 			c.Report(&Violation{Class: "exit0-incomplete", Key: key, Detail: desc + ": exit status 0 but output is not what the fault-free run writes: " + d, Plan: plan})
+			return
+		}
+	}
+	if cs.env.Pre != "" && cs.env.Pre != "file" && cs.env.Pre != "outfile" && cs.gc.IR != nil && cs.gc.Compilable {
+		// whatever an earlier run left behind: the packages this configuration calls for must compile
+		called := map[string][]byte{}
+		for _, pk := range expectedPackages(cs.gc, cs.flags) {
+			prefix := filepath.ToSlash(filepath.Join(cs.spec.OutDir(), pk)) + "/"
+			for name, data := range res.Files {
+				if strings.HasPrefix(name, prefix) && !strings.Contains(name[len(prefix):], "/") && strings.HasSuffix(name, ".go") {
+					called[name] = data
+				}
+			}
+		}
+		if e := typecheckTree(called); e != "" && !strings.HasPrefix(e, "harness: ") {
+			c.Report(&Violation{Class: "uncompilable-output", Key: key, Detail: desc + ": exit status 0 but the packages the configuration calls for do not compile (files of an earlier run left in place?): " + oneLine(e, 300), Plan: plan})
 		}
 	}
 }
